@@ -355,6 +355,8 @@ type ProgCase struct {
 	Expected []Frame  `json:"expected"`
 	Got      []Frame  `json:"got"`
 	GotSer   []Frame  `json:"got_ser"` // after Write + CompiledProgram
+	GotWarm  []Frame  `json:"got_warm"` // on a thread that ran unrelated deep calls before
+	Warm     string   `json:"warm"`     // shape of the warm-up
 	Err      string   `json:"err"`
 	ErrSer   string   `json:"err_ser"`
 	BtOK     bool     `json:"bt_ok"`     // Backtrace() has the expected frame lines
@@ -492,7 +494,7 @@ func (g *gen) openParenAndMove() {
 var linkKinds = []string{"def", "def", "lambda", "comp", "dictcomp", "sorted", "min", "max", "closure", "callkw", "callvar", "ifblock", "forblock"}
 var failKinds = []string{"call", "binop", "unop", "index", "attr", "unpack", "local", "global", "fail",
 	"setindex", "divzero", "iterate", "slice", "cmp", "in", "callkw", "setfield", "augassign", "argbind",
-	"dictkey", "compiterate", "percent", "notin", "default", "methodcall"}
+	"dictkey", "compiterate", "percent", "notin", "default", "methodcall", "pluschain", "recursive", "pluschain", "argbind"}
 
 func fname(i int) string { return fmt.Sprintf("f%d", i) }
 
@@ -628,6 +630,13 @@ func (g *gen) genFailing(name, kind string) []Frame {
 	w := g.w
 	r := g.r
 	w.s("def " + name + "(x):\n")
+	var firstL, firstC int32
+	if kind == "recursive" {
+		w.s("    q0 = ")
+		g.openParenAndMove()
+		firstL, firstC = w.mark()
+		w.s("x + 0)\n")
+	}
 	w.s("    y = \"s\"\n    t = (1, 2, 3)\n")
 	g.filler("    ")
 	ind := "    "
@@ -834,14 +843,122 @@ func (g *gen) genFailing(name, kind string) []Frame {
 		l, c := w.mark()
 		w.s("([x]))" + tail)
 		out = append(fr(l, c), Frame{Name: "join", File: "<builtin>"})
-	case "argbind": // the callee rejects its arguments: innermost frame is the callee, position unspecified here
+	case "argbind":
+		// The callee rejects its arguments before its first instruction runs: the
+		// innermost frame is the callee with a fresh frame (pc 0), which reports the
+		// first position of the callee's code -- whatever ran before on the thread.
 		w.s(ind + "return ")
 		g.openParenAndMove()
 		w.s("g_two")
 		l, c := w.mark()
+		w.s(hx.Pick(r, []string{"(x))", "(x, x, x))", "(x, zz = 1))", "(x, x, a = 2))", "())"}) + tail)
+		w.s("def g_two(a, b):\n")
+		w.s("    q = ")
+		g.openParenAndMove()
+		l0, c0 := w.mark()
+		w.s("a + 1)\n")
+		w.nl(r.Intn(30))
+		w.s("    r = [q,")
+		w.sp(g.colPad())
+		w.s("q * 2, q - a]\n")
+		w.nl(r.Intn(30))
+		w.s("    return r[0] - b\n")
+		out = append(fr(l, c), Frame{Name: "g_two", Line: l0, Col: c0})
+	case "recursive":
+		// The recursion check fails in the callee before its first instruction: the
+		// second frame of the same function is fresh (pc 0 => first position).
+		w.s(ind + "return ")
+		g.openParenAndMove()
+		w.s(name)
+		w.sp(r.Intn(3))
+		l, c := w.mark()
 		w.s("(x))" + tail)
-		w.s("def g_two(a, b):\n    return a\n")
-		out = append(fr(l, c), Frame{Name: "g_two", Line: -1, Col: -1})
+		out = append(fr(l, c), Frame{Name: name, Line: firstL, Col: firstC})
+	case "pluschain":
+		// A chain a + b + c + ... with runs of adjacent literals (which the compiler
+		// folds into one constant), possibly spread over lines; the generator works
+		// out, left to right, which '+' is the first whose operand types differ.
+		w.s(ind + "return ")
+		g.openParenAndMove()
+		type operand struct {
+			text string
+			ty   int // 0 int, 1 string, 2 list, 3 tuple
+		}
+		lit := func(ty int) operand {
+			switch ty {
+			case 1:
+				return operand{fmt.Sprintf("\"s%d\"", r.Intn(9)), 1}
+			case 2:
+				return operand{fmt.Sprintf("[%d]", r.Intn(9)), 2}
+			default:
+				return operand{fmt.Sprintf("(%d, %d)", r.Intn(9), r.Intn(9)), 3}
+			}
+		}
+		vars := []operand{{"x", 0}, {"y", 1}, {"t", 3}, {"[x]", 2}}
+		var ops []operand
+		litTy := 1 + r.Intn(3)
+		run := func() {
+			k := 1 + r.Intn(4)
+			for q := 0; q < k; q++ {
+				ops = append(ops, lit(litTy))
+			}
+		}
+		switch r.Intn(4) {
+		case 0: // the non-literal operand first, then a run of literals
+			ops = append(ops, vars[0])
+			run()
+		case 1: // a literal of another kind, then a run
+			ops = append(ops, lit(1+litTy%3))
+			run()
+		case 2: // run, non-literal in the middle (of the literals' type, so it is fine), run, then a mismatch
+			run()
+			for _, v := range vars {
+				if v.ty == litTy {
+					ops = append(ops, v)
+				}
+			}
+			run()
+			ops = append(ops, vars[0])
+			if r.Bool() {
+				run()
+			}
+		default: // any mixture
+			n := 2 + r.Intn(6)
+			for q := 0; q < n; q++ {
+				if r.Intn(3) == 0 {
+					ops = append(ops, hx.Pick(r, vars))
+				} else {
+					ops = append(ops, lit(1+r.Intn(3)))
+				}
+			}
+			ops = append(ops, vars[0], lit(1))
+		}
+		cur := ops[0].ty
+		var fl, fc int32
+		failed := false
+		w.s(ops[0].text)
+		for _, o := range ops[1:] {
+			if r.Intn(3) == 0 {
+				w.nl(1 + r.Intn(3))
+				w.sp(r.Intn(60))
+			} else {
+				w.sp(1 + r.Intn(3))
+			}
+			l, c := w.mark()
+			w.s("+")
+			w.sp(r.Intn(3))
+			if r.Intn(5) == 0 {
+				w.nl(1)
+				w.sp(r.Intn(30))
+			}
+			w.s(o.text)
+			if !failed && o.ty != cur {
+				failed = true
+				fl, fc = l, c
+			}
+		}
+		w.s(")" + tail)
+		out = fr(fl, fc)
 	}
 	return out
 }
@@ -894,13 +1011,53 @@ func btMatches(bt string, fs []Frame) bool {
 	return strings.HasPrefix(got[len(want)], errPrefix)
 }
 
+// warmThread returns a thread on which unrelated calls ran to completion down
+// to depth `depth`, each frame having executed `work` filler statements before
+// its nested call (so the frames the thread recycles have been at large pcs).
+var warmProgs = map[string]*starlark.Program{}
+
+func warmThread(depth, work int, viaBuiltin bool) (*starlark.Thread, string) {
+	key := fmt.Sprintf("depth=%d,work=%d,builtin=%v", depth, work, viaBuiltin)
+	prog := warmProgs[key]
+	if prog == nil {
+		var sb strings.Builder
+		sb.WriteString("def w0(x):\n    return x\n")
+		for k := 1; k <= depth; k++ {
+			fmt.Fprintf(&sb, "def w%d(x):\n", k)
+			for q := 0; q < work; q++ {
+				fmt.Fprintf(&sb, "    _a%d = [x, x + %d, (x * 2) - 1]\n", q, q)
+			}
+			if viaBuiltin && k%3 == 0 {
+				fmt.Fprintf(&sb, "    return max([x, x], key = w%d)\n", k-1)
+			} else {
+				fmt.Fprintf(&sb, "    return w%d(x) + 0\n", k-1)
+			}
+		}
+		fmt.Fprintf(&sb, "_r = [w%d(1), w%d(2)]\n", depth, depth)
+		_, p, err := starlark.SourceProgramOptions(&syntax.FileOptions{}, "warm.star", sb.String(), func(string) bool { return false })
+		if err != nil {
+			panic(err)
+		}
+		warmProgs[key] = p
+		prog = p
+	}
+	thread := &starlark.Thread{Name: "c16"}
+	if _, err := prog.Init(thread, nil); err != nil {
+		panic("warm-up failed: " + err.Error())
+	}
+	return thread, key
+}
+
 func execProg(prog *starlark.Program) (frames []Frame, errs string, bt string, problem string) {
+	return execProgOn(&starlark.Thread{Name: "c16"}, prog)
+}
+
+func execProgOn(thread *starlark.Thread, prog *starlark.Program) (frames []Frame, errs string, bt string, problem string) {
 	defer func() {
 		if e := recover(); e != nil {
 			problem = fmt.Sprint("panic: ", e)
 		}
 	}()
-	thread := &starlark.Thread{Name: "c16"}
 	_, err := prog.Init(thread, nil)
 	if err == nil {
 		return nil, "", "", "program did not fail"
@@ -961,6 +1118,17 @@ func runProg(seed uint64, i int, withLNT bool) ProgCase {
 	pc.BtOK = btMatches(pc.Bt, pc.Expected)
 	if len(pc.Bt) > 1500 {
 		pc.Bt = pc.Bt[:1500]
+	}
+	// the same on a thread with a history: the report must not depend on what ran before
+	{
+		wr := hx.NewRand(seed*77 + uint64(i))
+		th, key := warmThread(12+wr.Intn(8), 1+wr.Intn(12), wr.Bool())
+		var pw string
+		pc.GotWarm, _, _, pw = execProgOn(th, prog)
+		pc.Warm = key
+		if pw != "" {
+			pc.Problem += " warm: " + pw
+		}
 	}
 	// the same after a serialisation round trip
 	var buf bytes.Buffer
